@@ -129,18 +129,19 @@ ApplyRec(ws, r, s, maxq, unordered) ==
       isEnd == dself \/ (mself /\ ~e.rec) \/ ign
       op    == InotifyOpOf(vis)
       name  == NormIf(ws.recursive, IF r.n = "" THEN e.path ELSE Append(e.path, r.n))
+      name2 == IF e.alt = <<>> THEN <<>> ELSE NormIf(ws.recursive, IF r.n = "" THEN e.alt ELSE Append(e.alt, r.n))
       from  == IF HasBit(vis, IN_MOVED_TO) /\ r.ck # 0 /\ r.ck \in DOMAIN ws.ck THEN ws.ck[r.ck] ELSE <<>>
       \* "... reporting Remove unless the watched parent directory already did" (C09): the end of a watch may stay silent only
       \* if a parent directory watch of this Watcher really reported the removal.  (The code asks instead whether Dir(path) is
       \* listed when it gets to the record - see known findings "parent listed but silent".)
       reported == r.ino \in ws.prep
       maybe == ~reported /\ (ws.prepAmb \/ r.ino \in ws.prepU)
-      pst   == IF dself /\ (reported \/ maybe) THEN ParentState(ws, e.path) ELSE "none"
-      silent == dself /\ ~reported /\ ~maybe /\ ParentState(ws, e.path) # "none"
+      pst   == IF dself /\ (reported \/ maybe) THEN ParentState(ws, IF e.alt # <<>> THEN e.alt ELSE e.path) ELSE "none"
+      silent == dself /\ ~reported /\ ~maybe /\ ParentState(ws, IF e.alt # <<>> THEN e.alt ELSE e.path) # "none"
       merged== ws.last.ino = r.ino /\ ws.last.m = r.m /\ ws.last.n = r.n
       certain == ws.ovf /\ ws.room > 0         \* the queue is known to have room again (observed), see CheckObs
       min   == IF e.st # "live" \/ merged \/ (ws.ovf /\ ~certain) \/ pst = "other" THEN 0 ELSE 1
-      ent   == [seq |-> s, ino |-> r.ino, name |-> name, op |-> op, from |-> from,
+      ent   == [seq |-> s, ino |-> r.ino, name |-> name, name2 |-> name2, op |-> op, from |-> from,
                 min |-> IF pst = "live" \/ (dself /\ maybe) THEN 0 ELSE min, ovf |-> (ws.ovf /\ ~certain), self |-> (r.n = ""),
                 sup |-> (pst = "live" /\ ~maybe), ck |-> r.ck]
       queued== vis # 0 \/ ign
@@ -172,7 +173,7 @@ ApplyRec(ws, r, s, maxq, unordered) ==
 ---------------------------------------------------------------------------
 (* Consumer side. *)
 
-Match(x, v) == x.name = v.name /\ x.op = v.op
+Match(x, v) == (x.name = v.name \/ (x.name2 # <<>> /\ x.name2 = v.name)) /\ x.op = v.op
 
 (* Which expected entries may a received event v stand for?  Only optional  *)
 (* entries may be passed over.  Candidates are the earliest matching         *)
@@ -253,7 +254,10 @@ Consume(ws0, v, j) ==
       \* the old name is owed only if the Rename half of the same move was delivered (it may have been dropped
       \* legitimately together with its watch)
       w2 == IF v.from # <<>> /\ v.from # x.from THEN Bad(w1, {"C11"}, "renamed_from_wrong")
-            ELSE IF v.from = <<>> /\ x.from # <<>> /\ x.ck \in ws.seenCk THEN Bad(w1, {"C11"}, MissingFrom(ws, x))
+            ELSE IF v.from = <<>> /\ x.from # <<>>
+                    /\ (x.ck \in ws.seenCk      \* ... or was owed and has been passed over (the move's Rename is missing as well)
+                        \/ \E q \in 1..Len(w1.skipped) : w1.skipped[q].ck = x.ck /\ HasBit(w1.skipped[q].op, OpRename))
+                 THEN Bad(w1, {"C11"}, MissingFrom(ws, x))
             ELSE IF HasBit(x.op, OpRename) /\ x.ck # 0 THEN [w1 EXCEPT !.seenCk = @ \cup {x.ck}]
             ELSE w1
       \* (... and if the parent's own Remove was passed over, this one may as well be that Remove, out of order)
@@ -349,7 +353,9 @@ Settle(ws) ==
 ---------------------------------------------------------------------------
 (* API calls. *)
 
-Entry(P, mask, rec) == [path |-> P, mask |-> mask, st |-> "live", how |-> "", endSeq |-> 0, rec |-> rec, root |-> <<>>]
+\* alt: for a path added on its own inside a recursively watched tree, where it is now after a directory above it was renamed
+\* (C08 names its events after the Add argument, C19 after the true current path: either is accepted)
+Entry(P, mask, rec) == [path |-> P, mask |-> mask, st |-> "live", how |-> "", endSeq |-> 0, rec |-> rec, root |-> <<>>, alt |-> <<>>]
 
 \* Add(P) where the cleaned argument P currently resolves to inode i (reserr = "") or fails to resolve.
 IdealAdd(ws, P, i, reserr, mask, ret) ==
@@ -407,9 +413,13 @@ MoveDir(ws, ino, newParentIno, name) ==
   THEN LET old == ws.uw[ino].path
            new == Append(ws.uw[newParentIno].path, name)
            U == ws.uw
+           Cur(e) == IF e.alt # <<>> THEN e.alt ELSE e.path
        IN Note([ws EXCEPT !.uw = [k \in DOMAIN U |->
                    IF U[k].rec /\ IsUnder(U[k].path, old)
-                   THEN [U[k] EXCEPT !.path = new \o SubSeq(U[k].path, Len(old) + 1, Len(U[k].path))] ELSE U[k]]], "recursive_rename")
+                   THEN [U[k] EXCEPT !.path = new \o SubSeq(U[k].path, Len(old) + 1, Len(U[k].path))]
+                   ELSE IF ~U[k].rec /\ IsUnder(Cur(U[k]), old)
+                   THEN [U[k] EXCEPT !.alt = new \o SubSeq(Cur(U[k]), Len(old) + 1, Len(Cur(U[k])))]
+                   ELSE U[k]]], "recursive_rename")
   ELSE ws
 
 IdealRemoveRec(ws, P, ret) ==
